@@ -12,6 +12,7 @@ import z3
 
 from pyvc import sym, instrument, vc as vcm
 from pyvc.harness import Unit
+from pyvc import harness as _h
 from pyvc.sym import SB, SI, SR, check, explore
 
 PROPERTY = "C16"
@@ -281,9 +282,16 @@ def run_solver_accepts(mutate=None):
     return dict(obls=obls, paths=n, sources=[L.info()], consistent=True)
 
 
+
+def _bounded_quick():
+    r = replay('bounded', dict(name=''))
+    return ([r.get('failing_input')] if r.get('confirmed') else []), 1
+
+
 def units():
     return [Unit("CompositeParameter[operand contract -> composite contract]", M + ":Parameter / CompositeParameter", run_induction, props=["C16", "C14"], timeout=900),
-            Unit("solver touch points", M + ":CompositeParameter", run_solver_accepts, props=["C16"], timeout=300)]
+            Unit("solver touch points", M + ":CompositeParameter", run_solver_accepts, props=["C16"], timeout=300),
+            _h.bounded_unit("real parameters on numeric leaves [bounded]", "tdgl.parameter (real classes)", "C16", _bounded_quick, "composites_of_numeric_leaves_are_pointwise_and_survive_pickling", timeout=900)]
 
 
 def replay(unit, obl):
